@@ -14,12 +14,14 @@
 (* single out and the tree ignores with a message, both "refuse with 65"   *)
 (* and "ignore it" are allowed.                                            *)
 (*                                                                         *)
-(* States:  "absent" | "valid" | "edge" | "range" | "text"                 *)
-(*   area   option 2.25 / 0.001 (refused: <= 0.001) / -3 / abc             *)
-(*          metadata 4.75 / 0.001 / 0 / xyz                                *)
-(*   k_exp  option 0.25 / 1 (accepted: in [0,1]) / 1.5 / abc               *)
-(*          metadata 0.35 / 0 (accepted) / -0.1 / k                        *)
-(*   (two decimals, the precision at which the reports state both values;  *)
+(* States:  "absent" | "valid" | "fine" | "edge" | "range" | "text"        *)
+(*   area   option 2.25 / 0.004 / 0.001 (refused: <= 0.001) / -3 / abc     *)
+(*          metadata 4.75 / 1.234 / 0.001 / 0 / xyz                        *)
+(*   k_exp  option 0.25 / 0.125 / 1 (accepted: in [0,1]) / 1.5 / abc       *)
+(*          metadata 0.35 / 0.375 / 0 (accepted) / -0.1 / k                *)
+(*   ("valid": two decimals, the precision at which the reports state both *)
+(*   values; "fine": a valid value with three decimals - it is the value   *)
+(*   used, and is echoed and recorded at the printed precision;            *)
 (*   "text" is, in turn, a word, the spelling NaN / nan of "not a number"  *)
 (*   - which a float parser accepts but is no number - or an empty value)  *)
 (*   loc    option absent | "PENINSULA"; metadata absent | "CANARIAS" |    *)
@@ -29,16 +31,17 @@
 (***************************************************************************)
 EXTENDS Integers, Sequences, FiniteSets
 
-AreaOptVal(s) == CASE s = "valid" -> "2.25" [] s = "edge" -> "0.001" [] s = "range" -> "-3" [] s = "text" -> "abc" [] OTHER -> ""
-AreaMetaVal(s) == CASE s = "valid" -> "4.75" [] s = "edge" -> "0.001" [] s = "range" -> "0" [] s = "text" -> "xyz" [] OTHER -> ""
-KOptVal(s) == CASE s = "valid" -> "0.25" [] s = "edge" -> "1" [] s = "range" -> "1.5" [] s = "text" -> "abc" [] OTHER -> ""
-KMetaVal(s) == CASE s = "valid" -> "0.35" [] s = "edge" -> "0" [] s = "range" -> "-0.1" [] s = "text" -> "k" [] OTHER -> ""
+AreaOptVal(s) == CASE s = "valid" -> "2.25" [] s = "fine" -> "0.004" [] s = "edge" -> "0.001" [] s = "range" -> "-3" [] s = "text" -> "abc" [] OTHER -> ""
+AreaMetaVal(s) == CASE s = "valid" -> "4.75" [] s = "fine" -> "1.234" [] s = "edge" -> "0.001" [] s = "range" -> "0" [] s = "text" -> "xyz" [] OTHER -> ""
+KOptVal(s) == CASE s = "valid" -> "0.25" [] s = "fine" -> "0.125" [] s = "edge" -> "1" [] s = "range" -> "1.5" [] s = "text" -> "abc" [] OTHER -> ""
+KMetaVal(s) == CASE s = "valid" -> "0.35" [] s = "fine" -> "0.375" [] s = "edge" -> "0" [] s = "range" -> "-0.1" [] s = "text" -> "k" [] OTHER -> ""
 
 \* accepted values, in thousandths
-AreaOk(origin, s) == s = "valid"
-AreaMilli(origin, s) == IF origin = "opt" THEN 2250 ELSE 4750
-KOk(origin, s) == s \in {"valid", "edge"}
-KMilli(origin, s) == IF origin = "opt" THEN (IF s = "valid" THEN 250 ELSE 1000) ELSE (IF s = "valid" THEN 350 ELSE 0)
+AreaOk(origin, s) == s \in {"valid", "fine"}
+AreaMilli(origin, s) == IF origin = "opt" THEN (IF s = "fine" THEN 4 ELSE 2250) ELSE (IF s = "fine" THEN 1234 ELSE 4750)
+KOk(origin, s) == s \in {"valid", "fine", "edge"}
+KMilli(origin, s) == IF origin = "opt" THEN (IF s = "valid" THEN 250 ELSE IF s = "fine" THEN 125 ELSE 1000)
+                     ELSE (IF s = "valid" THEN 350 ELSE IF s = "fine" THEN 375 ELSE 0)
 
 Red1Opt == <<100, 1100, 110>>
 Red1Meta == <<200, 1200, 220>>
@@ -47,7 +50,7 @@ Red2Meta == <<250, 1250, 225>>
 RedFile1 == <<300, 1300, 330>>       \* RED1 line of the user factors file; RED2 is not in the file
 RedDefault == <<0, 1300, 300>>
 
-States5 == {"absent", "valid", "edge", "range", "text"}
+States5 == {"absent", "valid", "fine", "edge", "range", "text"}
 States3 == {"absent", "valid", "text"}
 Configs == [aopt : States5, ameta : States5, kopt : States5, kmeta : States5,
             lopt : {"absent", "PENINSULA"}, lmeta : {"absent", "CANARIAS", "MARTE"}, ffile : BOOLEAN,
